@@ -281,6 +281,19 @@ func Run(r *core.Run) {
 			if (err == nil) != want {
 				return &core.Fail{Key: m.id, What: fmt.Sprintf("JWK %s: library says %v, the independent on-curve + width predicate says valid=%v", b, err, want), Detail: map[string]any{"jwk": m.jwk, "expected_valid": want}}
 			}
+			// the same public members with a private member beside them: a point that is not a key of the curve is not one there either
+			if crv, _ := m.jwk["crv"].(string); m.jwk["kty"] == "EC" && !want && keys.Curve(crv) != nil {
+				withD := map[string]any{}
+				for k, v := range m.jwk {
+					withD[k] = v
+				}
+				withD["d"] = enc.EncodeToString(big.NewInt(7).FillBytes(make([]byte, keys.Width(crv))))
+				b2, _ := json.Marshal(withD)
+				var j2 jwsutil.JWK
+				if err := j2.UnmarshalJSON(b2); err == nil {
+					return &core.Fail{Key: m.id + "/with-d", What: fmt.Sprintf("JWK %s is accepted although its public point is refused without the d member", b2), Detail: map[string]any{"jwk": withD}}
+				}
+			}
 			// the verification path, after the genuine key has been used in this process: a JWS made by the genuine key verifies under
 			// the mutated JWK only if that JWK is the genuine key (the independent verifier decides); a wrong-width or off-curve JWK never
 			if m.key != nil {
